@@ -197,7 +197,9 @@ def main(argv=None):
         known = [k for k in load_known() if k.get("property") == pid]
         new, hits = [], []
         for v in ctx.violations:
-            hit = next((k for k in known if k.get("rule") == v["rule"] and k.get("match", "") in (v["key"] + " " + v["message"])), None)
+            text = v["key"] + " " + v["message"]
+            # (an entry names the failing history: its rule and every one of its 'match' fragments must fit)
+            hit = next((k for k in known if k.get("rule") == v["rule"] and all(m in text for m in ([k.get("match", "")] if isinstance(k.get("match", ""), str) else k["match"]))), None)
             if hit is not None:
                 hits.append(hit.get("what", v["message"]))
             else:
